@@ -13,6 +13,9 @@ FORBIDDEN = re.compile(r'\b(sorry|admit|native_decide|bv_decide|implemented_by|u
 TRUSTED_BASE = [
     "Lean 4.33.0 kernel (thorough tier: also leanchecker); axioms allowed: propext, Classical.choice, Quot.sound",
     "harness/extract.py (Python AST -> Lean for constants, tables and fragment-G decision functions)",
+    "harness/extract_str.py + lean/ShexerModel/Base/PyOps.lean (fragment S: Python string functions, `while` loops with fuel, model objects -> Lean); "
+    "run against CPython and the real functions on every C05-C08 run (harness/strcheck.py); parameters standing for external functions: "
+    "resolve = urllib.parse.urljoin, floatOf = float() (none = ValueError, some b = whole number); isnumeric() read as ASCII digit",
     "correspondence harness: generators, ShExC text parser, canonicalisers, SIGALRM hang guard",
     "Lean compiler (the native `driver` is used for the correspondence only)",
     "hand-written Model/*.lean: modelled, not verified; tied to /repo by the correspondence on the stated domain",
